@@ -153,7 +153,13 @@ func runSleep(t *testing.T, c SleepCase) sleepObs {
 
 // monitorSleep encodes the clauses of the property text.
 func monitorSleep(c SleepCase, o sleepObs) *fail {
-	p := map[string]interface{}{"d": c.D, "deadline": c.Deadline, "cancel_at": c.CancelAt}
+	rel := "none"
+	if c.Deadline >= 0 && c.Deadline < c.D {
+		rel = "closer-than-d"
+	} else if c.Deadline >= 0 {
+		rel = "not-closer-than-d"
+	}
+	p := map[string]interface{}{"deadline": rel, "cancelled": c.CancelAt >= 0, "d_positive": c.D > 0}
 	mk := func(kind, what string) *fail {
 		return &fail{kind, p, fmt.Sprintf("SleepContext(d=%s, deadline=%s, cancel at %s) returned %s after %s: %s",
 			dur(c.D), durOrNone(c.Deadline), durOrNone(c.CancelAt), o.res, dur(o.elapsed), what)}
@@ -258,7 +264,7 @@ func runTicker(t *testing.T, steps []TStep, seed int64) tickerRun {
 				r.lines = append(r.lines, fmt.Sprintf("poll tick %d", ts))
 				r.ticks++
 				if stopped && !drainAfterStop {
-					setFail("ticker-tick-after-stop", map[string]interface{}{"d": hist[len(hist)-1].d, "jitter": hist[len(hist)-1].j},
+					setFail("ticker-tick-after-stop", map[string]interface{}{"jitter_zero": hist[len(hist)-1].j == 0},
 						fmt.Sprintf("a tick (timestamp %s) arrived after Stop had returned and the channel had been drained", dur(ts)))
 				}
 				if lastTick >= 0 {
@@ -273,7 +279,7 @@ func runTicker(t *testing.T, steps []TStep, seed int64) tickerRun {
 						}
 					}
 					if minGap >= 0 && ts-lastTick < minGap {
-						setFail("ticker-spacing", map[string]interface{}{"d": pd, "jitter": pj},
+						setFail("ticker-spacing", map[string]interface{}{"jitter_zero": pj == 0},
 							fmt.Sprintf("consecutive ticks at %s and %s are %s apart, less than d - jitter = %s - %s",
 								dur(lastTick), dur(ts), dur(ts-lastTick), dur(pd), dur(pj)))
 					}
@@ -294,13 +300,13 @@ func runTicker(t *testing.T, steps []TStep, seed int64) tickerRun {
 				if p {
 					r.lines = append(r.lines, fmt.Sprintf("new %d %d panic", st.A, st.B))
 					if validParams(st.A, st.B) {
-						setFail("ticker-panic-new", map[string]interface{}{"d": st.A, "jitter": st.B, "jitter_zero": st.B == 0},
+						setFail("ticker-panic-new", map[string]interface{}{"jitter_zero": st.B == 0},
 							fmt.Sprintf("NewJitterTicker(%s, %s) panicked: %v", dur(st.A), dur(st.B), pv))
 					}
 				} else {
 					r.lines = append(r.lines, fmt.Sprintf("new %d %d ok", st.A, st.B))
 					if !validParams(st.A, st.B) && (st.A <= 0 || st.B >= st.A) {
-						setFail("ticker-missing-documented-panic-new", map[string]interface{}{"d": st.A, "jitter": st.B},
+						setFail("ticker-missing-documented-panic-new", map[string]interface{}{"d_positive": st.A > 0},
 							fmt.Sprintf("NewJitterTicker(%s, %s) did not panic although documented to", dur(st.A), dur(st.B)))
 					}
 					tk, alive = nt, true
@@ -331,14 +337,14 @@ func runTicker(t *testing.T, steps []TStep, seed int64) tickerRun {
 				if p {
 					r.lines = append(r.lines, fmt.Sprintf("reset %d %d panic", st.A, st.B))
 					if validParams(st.A, st.B) {
-						setFail("ticker-panic-reset", map[string]interface{}{"d": st.A, "jitter": st.B, "jitter_zero": st.B == 0},
+						setFail("ticker-panic-reset", map[string]interface{}{"jitter_zero": st.B == 0},
 							fmt.Sprintf("Reset(%s, %s) panicked: %v", dur(st.A), dur(st.B), pv))
 						alive = false // the mutex may be held forever
 					}
 				} else {
 					r.lines = append(r.lines, fmt.Sprintf("reset %d %d ok", st.A, st.B))
 					if !validParams(st.A, st.B) && (st.A <= 0 || st.B >= st.A) {
-						setFail("ticker-missing-documented-panic-reset", map[string]interface{}{"d": st.A, "jitter": st.B},
+						setFail("ticker-missing-documented-panic-reset", map[string]interface{}{"d_positive": st.A > 0},
 							fmt.Sprintf("Reset(%s, %s) did not panic although documented to", dur(st.A), dur(st.B)))
 					}
 					hist = append(hist, paramSet{now(), st.A, st.B})
